@@ -49,8 +49,7 @@ type udpState struct {
 	ids         map[int]int    // kernel datagram id -> plan index
 	handled     map[int]int    // plan index -> OnTraffic count
 	lastRecv    map[string]int // task -> index into k.UDPRecv already attributed
-	expectOut   []expSend
-	matched     map[int]bool
+	expectOut   []*expSend
 	readBuf     int
 	sentChecked int
 }
@@ -60,6 +59,8 @@ type expSend struct {
 	to      unix.Sockaddr
 	what    string
 	task    string
+	matched bool
+	dropped bool // the send failed because of an injected fault: nothing is expected
 }
 
 func (w *World) udpEvents() []vsched.Event {
@@ -202,14 +203,20 @@ func (w *World) onTrafficUDP(c gnet.Conn) gnet.Action {
 		data := outPayload(id, op.N)
 		switch op.M {
 		case "write":
-			u.expectOut = append(u.expectOut, expSend{append([]byte(nil), data...), w.senderAddr(d.Sender), "Write", task})
+			e := &expSend{payload: append([]byte(nil), data...), to: w.senderAddr(d.Sender), what: "Write", task: task}
+			u.expectOut = append(u.expectOut, e)
 			n, err := c.Write(data)
-			if err != nil || n != op.N {
+			if err != nil && len(w.p.Faults) > 0 {
+				e.dropped = true // an injected sendto failure: this reply is lost, nothing else
+			} else if err != nil || n != op.N {
 				w.violate("C08", "write", "datagram %d: Write of %d bytes returned (%d, %v)", idx, op.N, n, err)
 			}
 		case "asyncwrite":
-			u.expectOut = append(u.expectOut, expSend{append([]byte(nil), data...), w.senderAddr(d.Sender), "AsyncWrite", task})
-			if err := c.AsyncWrite(data, nil); err != nil {
+			e := &expSend{payload: append([]byte(nil), data...), to: w.senderAddr(d.Sender), what: "AsyncWrite", task: task}
+			u.expectOut = append(u.expectOut, e)
+			if err := c.AsyncWrite(data, nil); err != nil && len(w.p.Faults) > 0 {
+				e.dropped = true
+			} else if err != nil {
 				w.violate("C08", "write", "datagram %d: AsyncWrite of %d bytes returned %v", idx, op.N, err)
 			}
 		case "sendto":
@@ -218,9 +225,12 @@ func (w *World) onTrafficUDP(c gnet.Conn) gnet.Action {
 				target = op.Segs[0] % max(1, w.p.UDP.Senders)
 			}
 			sa := w.senderAddr(target)
-			u.expectOut = append(u.expectOut, expSend{append([]byte(nil), data...), sa, "SendTo", task})
+			e := &expSend{payload: append([]byte(nil), data...), to: sa, what: "SendTo", task: task}
+			u.expectOut = append(u.expectOut, e)
 			n, err := c.SendTo(data, sockaddrToUDPAddr(w, sa))
-			if err != nil || n != op.N {
+			if err != nil && len(w.p.Faults) > 0 {
+				e.dropped = true
+			} else if err != nil || n != op.N {
 				w.violate("C08", "write", "datagram %d: SendTo of %d bytes returned (%d, %v)", idx, op.N, n, err)
 			}
 		}
@@ -282,19 +292,18 @@ func (w *World) checkUDPSent() {
 	for i := u.sentChecked; i < len(sent); i++ {
 		task := sent[i].Task
 		// the next unmatched expectation of the same task
-		k := -1
-		for j := range u.expectOut {
-			if u.expectOut[j].task == task && !u.matched[j] {
-				k = j
+		var e *expSend
+		for _, x := range u.expectOut {
+			if x.task == task && !x.matched && !x.dropped {
+				e = x
 				break
 			}
 		}
-		if k < 0 {
+		if e == nil {
 			w.violate("C08", "extra-datagram", "the framework sent a datagram of %d bytes on task %s that no write operation asked for", len(sent[i].Payload), task)
 			return
 		}
-		u.matched[k] = true
-		e := u.expectOut[k]
+		e.matched = true
 		if string(sent[i].Payload) != string(e.payload) {
 			w.violate("C08", "reply-content", "%s of %d bytes was sent as a datagram of %d bytes with different content", e.what, len(e.payload), len(sent[i].Payload))
 			return
@@ -314,8 +323,14 @@ func (w *World) udpFinal() {
 	}
 	u := w.udp
 	w.checkUDPSent()
-	if len(w.k.UDPSent) < len(u.expectOut) && w.viol["C08"] == nil {
-		w.violate("C08", "reply-missing", "%d reply operations returned success but only %d datagrams were sent", len(u.expectOut), len(w.k.UDPSent))
+	want := 0
+	for _, e := range u.expectOut {
+		if !e.dropped {
+			want++
+		}
+	}
+	if len(w.k.UDPSent) < want && w.viol["C08"] == nil {
+		w.violate("C08", "reply-missing", "%d reply operations returned success but only %d datagrams were sent", want, len(w.k.UDPSent))
 	}
 	if w.stopRequested && w.udp.next < len(w.p.UDP.Dgrams) {
 		return
